@@ -1,5 +1,5 @@
 """C15 JSON Patch is RFC 6902-conformant and atomic - undo-log pairing, commit discipline, total dispatch."""
-from .. import frontend as F, ast as A, cfg as C, util as U, guards as G
+from .. import frontend as F, ast as A, cfg as C, util as U, guards as G, inline as I
 
 EXPLANATION = ('Path rules over the CFG of jsonpatch::apply_patch and ~operation_unwinder: (R15.1) every mutating jsonpointer call on the '
                'target is followed, on every path that neither returns an error nor reaches another mutation, by exactly the inverse '
@@ -63,12 +63,13 @@ def r15_6(chk, facts):
     for fn in U.one_per_inst(dts)[:1]:
         chk.analysed(fn)
         for sv, sname in sorted(names.items()):
-            pe = P.PEval(facts, fn, max_depth=0)
+            pe = P.PEval(facts, fn, max_depth=2, follow=lambda callee, call: callee['file'] == fn['file'] and 'operation_unwinder' in callee['q'])
             try:
                 pe.exec_stmt(fn['body'], {('m', 'state'): sv}, (), 0)
             except P.Stop:
                 chk.broken('R15.6: effect budget exhausted')
-            replays = [e for e in pe.effects if e.kind == 'call' and e.name.split('::')[-1] in ('add', 'remove', 'replace') and e.args and e.args[0] == 'target']
+            replays = [e for e in pe.effects if e.kind == 'call' and e.name.split('::')[-1] in ('add', 'remove', 'replace') and e.args and
+                       (e.args[0] == 'target' or 'jsonpointer::' in ((e.extra or {}).get('cq') or ''))]
             site = U.site(fn, 'state %s' % sname)
             want = sname != 'commit'
             if bool(replays) == want: chk.ok('R15.6', site, {'state': sname, 'replays_log': bool(replays)})
@@ -312,6 +313,8 @@ def run(chk, tier, only_rule=None):
     en = U.enum_by_suffix(facts, 'jsonpatch::detail::op_type')
     for fn in U.one_per_inst(dts):
         chk.analysed(fn)
+        # the replay may be split over private helpers (`rollback()`, `undo(target, entry, ec)`): analysed with those calls expanded (E11)
+        fn = I.expand(facts, fn, depth=3)
         g = C.CFG(fn['body'])
         handled = {}
         vnames = U.enum_value_names(en)
